@@ -31,11 +31,11 @@ var spec = lib.Spec{
 	Rule: "inputs (<= 64 KiB) from five rapid generators: (soup) random sequences over a fragment alphabet of identifiers/keywords, ints, string literals with f/r/other prefixes, " +
 		"single and triple quotes, brace/dollar/backslash bodies and missing terminators, punctuation, whitespace incl. tabs, CR, NUL, invalid UTF-8, comments; (literals) chains of 1-4 adjacent " +
 		"string/f-string/raw-string literals in 18 expression contexts; (mutated) grammar-generated near-valid programs (def/for/if/elif/else, comprehensions, lambdas, slices, inline if, type annotations, aliases, docstrings) " +
-		"with 0-4 token mutations (delete, duplicate, swap, insert, replace, break indentation, glue, truncate); (stress) 25 nesting shapes repeated up to depth 2000 (thorough: 1% of them up to 20000, 0.25% up to the 64 KiB limit); (long) very long tokens and lines (up to 16000 bytes; thorough: a tenth up to 60000); " +
+		"with 0-4 token mutations (delete, duplicate, swap, insert, replace, break indentation, glue, truncate); (stress) 25 nesting shapes repeated up to depth 2000 (thorough: 1% of them up to 20000, 0.1% up to the 64 KiB limit); (long) very long tokens and lines (up to 16000 bytes; thorough: a tenth up to 60000); " +
 		"thorough tier adds Go native coverage-guided fuzzing seeded with every BUILD/build_defs file of the repository. " +
-		"Oracle: asp.NewParser(state).ParseData on the bytes (also stored in a real file so that positions resolve) returns within 60 s, does not panic, and returns nil or asp's positioned error (>= 1 frame, line >= 1 and within the file) that is not a runtime.Error; rendering the error does not panic. " +
+		"Oracle: asp.NewParser(state).ParseData on the bytes (also stored in a real file so that positions resolve) returns (hang bound: 2 min wall in quick where inputs are <= 16 KB, 15 min in thorough), does not panic, and returns nil or asp's positioned error (>= 1 frame, line >= 1 and within the file) that is not a runtime.Error; rendering the error does not panic. " +
 		"Non-trivial = lexes to >= 5 tokens and is rejected, or contains an f-string or adjacent string literals; distinct = input bytes",
-	Assumptions: []string{"inputs are at most 64 KiB", "a parse still running after 60 s wall on such an input is counted as a hang"},
+	Assumptions: []string{"inputs are at most 64 KiB", "a parse still running after the hang bound (2 min quick / 15 min thorough, wall) is counted as a hang"},
 }
 
 // Case is one parser input.
@@ -97,12 +97,25 @@ func parseOnce(data []byte, filename string) *outcome {
 		out.toks, out.lexErr = asp.VerifLex(data, 1<<20)
 		out.stage = ""
 	}()
+	// The bound is deliberately far above anything a loaded machine could need for 64 KiB (the slowest
+	// inputs found - 60 000 nested brackets - take tens of seconds because the parser is quadratic in
+	// nesting depth): only a parse that never returns is a hang.
+	tm := time.NewTimer(hangBound())
+	defer tm.Stop()
 	select {
 	case <-done:
 		return out
-	case <-time.After(60 * time.Second):
+	case <-tm.C:
 		return nil
 	}
+}
+
+// hangBound stays below the test binary's timeout so that a hang is reported as a violation with its input.
+func hangBound() time.Duration {
+	if lib.Thorough() {
+		return 15 * time.Minute
+	}
+	return 2 * time.Minute // quick inputs are small (depth <= 2000, <= 16 KB): milliseconds normally
 }
 
 func quote(data []byte) string {
@@ -127,7 +140,7 @@ func run(c Case, o *lib.Obs) error {
 	o.Label("mode_" + c.Mode)
 	out := parseOnce(data, filename)
 	if out == nil {
-		return lib.Failf("hang", "parsing %d bytes did not return within 60 s: %s", len(data), quote(data))
+		return lib.Failf("hang", "parsing %d bytes did not return within %v: %s", len(data), hangBound(), quote(data))
 	}
 	if out.panicked != nil {
 		return lib.Failf("panic-escaped-"+out.stage, "panic escaped (%s stage) on %s: %v", out.stage, quote(data), out.panicked)
@@ -178,9 +191,9 @@ func gen(t *rapid.T) Case {
 		stressShare, longShare = 10, 3
 	}
 	var c Case
-	switch k := rapid.IntRange(0, 999).Draw(t, "mode"); {
+	switch k := uni(t, 1000, "mode"); {
 	case k < longShare:
-		if lib.Thorough() && rapid.IntRange(0, 9).Draw(t, "longest") == 0 {
+		if lib.Thorough() && uni(t, 10, "longest") == 0 {
 			maxLen = 60000
 		}
 		c = Case{Data: genLongLine(t, maxLen), Mode: "long"}
@@ -188,10 +201,10 @@ func gen(t *rapid.T) Case {
 		if lib.Thorough() {
 			// deeper nesting is rare: the parser hoists operators quadratically and renders a full stack
 			// trace for every rejected input, so one such case costs seconds
-			switch f := rapid.IntRange(0, 399).Draw(t, "deep"); {
+			switch f := uni(t, 1000, "deep"); {
 			case f == 0:
 				maxDepth = maxInput // up to the 64 KiB input bound
-			case f < 5:
+			case f < 11:
 				maxDepth = 20000
 			}
 		}
